@@ -230,3 +230,15 @@ package smgp30
 //@     invariant @dec forall j int :: 0 <= j && j < i ==> s.DestTermID[j] == gq.DestTermID[j]
 //@     invariant @safe !packet.rfailed(b) ==> (forall j int :: 0 <= j && j < i ==> nonul(s.DestTermID[j]) && len(s.DestTermID[j]) <= 21)
 //@     decreases int(s.DestTermIDCount) - i
+
+// ---------------------------------------------------------------- login constructor (C15, C10)
+
+//@ func genAuthenticatorClient
+//@   props C15
+//@   ensures [C15 digest] result0 == md5(cat(clientId, zeros(7), secret, dec10(int(timestamp)))) && len(result0) == 16 && result1 == nil
+
+//@ func NewLogin
+//@   props C15,C10
+//@   ensures [C15 auth] result != nil && result.AuthenticatorClient == md5(cat(account, zeros(7), passwd, dec10(int(result.Timestamp)))) && len(result.AuthenticatorClient) == 16
+//@   ensures [C15 fields] result.ClientID == account
+//@   ensures [C10 header] int(result.Header.CommandID) == 1 && result.Header.SequenceID == seqID
